@@ -533,7 +533,7 @@ func roundTrip(s *fontSpec) (err error, labels []string, nt bool, fp uint64) {
 		return werr, nil, false, 0
 	}
 	fail := func(format string, a ...any) error {
-		return fmt.Errorf("%s\n  bytes: %s", fmt.Sprintf(format, a...), dump(fmt.Sprintf("c13-%016x.cff", stats.Hash(data)), data))
+		return fmt.Errorf("%s\n  bytes: %s", fmt.Sprintf(format, a...), dump("c13-roundtrip-last-failure.cff", data))
 	}
 
 	// (1) the harness's own walker accepts the file and finds the input in it
